@@ -1072,6 +1072,9 @@ type c12Set struct {
 // fields - which must not change what a later DefaultFlagNameConfig() means
 var c12CfgMode int
 
+// c12PreParse: the next set's FlagSet is parsed by the harness (standing in for the application) before Value is asked
+var c12PreParse bool
+
 func c12NewSet(pk string, ne, te cc.EncodeCasingFunc, tmpl any, args []string) (*c12Set, error) {
 	if pk == "std" {
 		ncfg := &dflag.NameConfig{FieldNameEncodeCasing: ne, TagEncodeCasing: te}
@@ -1087,6 +1090,11 @@ func c12NewSet(pk string, ne, te cc.EncodeCasingFunc, tmpl any, args []string) (
 			return nil, err
 		}
 		s.Flags.SetOutput(io.Discard)
+		if c12PreParse {
+			if perr := s.Flags.Parse(args); perr != nil {
+				return nil, perr
+			}
+		}
 		return &c12Set{
 			visitAll: func(f func(string, string)) { s.Flags.VisitAll(func(fl *flag.Flag) { f(fl.Name, fl.DefValue) }) },
 			value:    func(t *dials.Type) (reflect.Value, error) { return s.Value(context.Background(), t) },
@@ -1106,6 +1114,11 @@ func c12NewSet(pk string, ne, te cc.EncodeCasingFunc, tmpl any, args []string) (
 		return nil, err
 	}
 	s.Flags.SetOutput(io.Discard)
+	if c12PreParse {
+		if perr := s.Flags.Parse(args); perr != nil {
+			return nil, perr
+		}
+	}
 	return &c12Set{
 		visitAll: func(f func(string, string)) { s.Flags.VisitAll(func(fl *pflag.Flag) { f(fl.Name, fl.DefValue) }) },
 		value:    func(t *dials.Type) (reflect.Value, error) { return s.Value(context.Background(), t) },
@@ -1306,11 +1319,19 @@ func c12Case(c *Ctx, r *RNG, res *Result, pk string, idx int) {
 	// ---- implementation
 	var set *c12Set
 	var newErr error
+	// the application may have parsed the flag set itself before dials asks for the value (documented for
+	// NewCmdLineSet: main() may call flag.Parse()): the occurrences still count once
+	c12PreParse = !expErr && r.Chance(20)
+	if c12PreParse {
+		res.Count("flagset-parsed-by-the-application-first")
+	}
 	pn := catch(func() {
 		set, newErr = c12NewSet(pk, c12Encoders[neIdx].fn, c12Encoders[teIdx].fn, tmplA.Interface(), args)
 	})
-	if pn != "" && strings.Contains(pn, "reflect.StructOf") && (neIdx == 2 || neIdx == 4) {
+	c12PreParse = false
+	if (neIdx == 2 || neIdx == 4) && ((pn != "" && strings.Contains(pn, "reflect.StructOf")) || (newErr != nil && strings.Contains(newErr.Error(), "reflect.StructOf"))) {
 		// lower snake / kebab field names are not exported Go identifiers: the Transformer cannot build the translated struct
+		// (reported as an error since the repair of P13 / P18; a panic before)
 		res.Count("nameconfig-rejected-by-reflect")
 		res.OutOfDomain++
 		res.Case(fmt.Sprintf("%s|%s|%s|%s", pk, neName, teName, fields), false, cs)
